@@ -4342,34 +4342,62 @@ impl Handler {
         };
         let effective_auth = refreshed_identity.as_ref().or(auth);
 
-        // Authorization check: if auth is provided, validate the statement
-        if let Some(identity) = effective_auth {
-            if let Ok(ref stmt) = statement::parse_statement(trimmed) {
-                crate::auth::authorize_statement(&identity.role, stmt)?;
-            }
-        }
-
-        // Protect _internal KG from direct access.
-        // Block both explicit commands AND sessions already bound to _internal.
+        // Authorization is decided statement by statement. A program is executed line by
+        // line (see `QueryJob::execute`), so checking only a program that happens to parse
+        // as ONE statement let any multi-line program skip every check below - global role,
+        // the `_internal` guard and the per-KG role alike. Walk the program with the same
+        // line discipline the executor uses and authorize each statement against the
+        // knowledge graph it will act on (`.kg use` / `.kg create` switch it for later lines).
         let session_kg_owned: Option<String> = if knowledge_graph.is_none() {
             session_id.and_then(|sid| self.sessions.session_kg(sid).ok())
         } else {
             None
         };
-        let current_kg = knowledge_graph.as_deref().or(session_kg_owned.as_deref());
+        let default_kg_owned: Option<String> =
+            if knowledge_graph.is_none() && session_kg_owned.is_none() {
+                self.storage
+                    .read()
+                    .current_knowledge_graph()
+                    .map(ToString::to_string)
+            } else {
+                None
+            };
+        let mut current_kg: Option<String> = knowledge_graph
+            .clone()
+            .or(session_kg_owned)
+            .or(default_kg_owned);
 
-        if let Some(identity) = effective_auth {
-            if identity.role != crate::auth::Role::Admin
-                && current_kg == Some(crate::auth::INTERNAL_KG)
-            {
-                return Err(format!(
-                    "Access denied: '{}' is a system knowledge graph",
-                    crate::auth::INTERNAL_KG
-                ));
+        let logical_program = join_continuation_lines(&strip_comments(trimmed));
+        let mut created_here: Vec<String> = Vec::new();
+        for line in logical_program.lines() {
+            let line = line.trim();
+            if line.is_empty() {
+                continue;
             }
-        }
-        if let Ok(ref stmt) = statement::parse_statement(trimmed) {
-            match stmt {
+            // A line that does not parse makes query_program reject the whole program
+            // before anything runs, so there is nothing to authorize for it.
+            let Ok(stmt) = statement::parse_statement(line) else {
+                continue;
+            };
+
+            // Global role
+            if let Some(identity) = effective_auth {
+                crate::auth::authorize_statement(&identity.role, &stmt)?;
+            }
+
+            // Protect _internal KG from direct access.
+            // Block both explicit commands AND requests/sessions bound to _internal.
+            if let Some(identity) = effective_auth {
+                if identity.role != crate::auth::Role::Admin
+                    && current_kg.as_deref() == Some(crate::auth::INTERNAL_KG)
+                {
+                    return Err(format!(
+                        "Access denied: '{}' is a system knowledge graph",
+                        crate::auth::INTERNAL_KG
+                    ));
+                }
+            }
+            match &stmt {
                 statement::Statement::Meta(
                     statement::MetaCommand::KgUse(name)
                     | statement::MetaCommand::KgDrop(name)
@@ -4382,14 +4410,12 @@ impl Handler {
                 }
                 _ => {}
             }
-        }
 
-        // Per-KG authorization: check if user has access to the target KG.
-        if let Some(identity) = effective_auth {
-            if identity.role != crate::auth::Role::Admin {
-                if let Ok(ref stmt) = statement::parse_statement(trimmed) {
+            // Per-KG authorization: check if user has access to the target KG.
+            if let Some(identity) = effective_auth {
+                if identity.role != crate::auth::Role::Admin {
                     // Determine which KG the operation targets
-                    let target_kg = match stmt {
+                    let target_kg = match &stmt {
                         statement::Statement::Meta(
                             statement::MetaCommand::KgDrop(name)
                             | statement::MetaCommand::KgUse(name),
@@ -4411,19 +4437,35 @@ impl Handler {
                             | statement::MetaCommand::Status,
                         ) => None,
                         // All other statements operate on the current KG
-                        _ => current_kg,
+                        _ => current_kg.as_deref(),
                     };
 
                     if let Some(kg) = target_kg {
                         if let Some(kg_role) =
                             self.get_kg_role_for_user(kg, &identity.username, &identity.role)
                         {
-                            crate::auth::authorize_kg_operation(&kg_role, stmt)?;
+                            crate::auth::authorize_kg_operation(&kg_role, &stmt)?;
+                        } else if created_here.iter().any(|k| k == kg) {
+                            // created by an earlier statement of this program: the caller
+                            // becomes its owner (the ACL row is written after the program)
+                            crate::auth::authorize_kg_operation(&crate::auth::KgRole::Owner, &stmt)?;
                         } else {
                             return Err("Access denied".to_string());
                         }
                     }
                 }
+            }
+
+            // Later statements act on the graph this one switches to.
+            match &stmt {
+                statement::Statement::Meta(statement::MetaCommand::KgUse(name)) => {
+                    current_kg = Some(name.clone());
+                }
+                statement::Statement::Meta(statement::MetaCommand::KgCreate(name)) => {
+                    created_here.push(name.clone());
+                    current_kg = Some(name.clone());
+                }
+                _ => {}
             }
         }
 
